@@ -255,6 +255,23 @@ def run_inproc(case):
             res.count("variants_for_discovered_constants")
         nt = 0
         keys = []
+        # history: something else in this process started a merge of its own sorted files earlier and took only the top
+        # rows (the generator stays alive, partly consumed); the chunked variants below merge their chunk files afterwards
+        abandoned = []
+        if case["index"] % 2 == 0:
+            import itertools
+
+            import pandas as pd
+
+            hp = []
+            for j, top in enumerate((1e9, -1e9, 0.0)):
+                f = d / f"history{j}.csv"
+                pd.DataFrame({"score": [top, top - 1, top - 2, top - 3], "id": range(4)}).to_csv(f, sep="\t", index=False)
+                hp.append(f)
+            c = core.Call(lambda: abandoned.append((g := core.mk("mokapot.utils").merge_sort(hp, score_column="score"),
+                                                    list(itertools.islice(g, 2)))))
+            if c.ok:
+                res.count("variant_groups_after_abandoned_merge")
         for vi, v in enumerate(variants):
             spec = dict(common, dest=str(d / f"v{vi}"), workers=1, paths=[str(pin)])
             if v.get("const"):
